@@ -1532,3 +1532,69 @@ func ruleSentinelCollision(c *Ctx) {
 	}
 	c.note("N-SENTINEL: %d parameters that are both a switch and a value", n)
 }
+
+// ruleFolderNotMembership (C12-FOLDER): which files belong to the workspace is decided by the include tree of the root
+// journal - not by where a file lies.  The workspace folder (the string field the constructor fills from its
+// parameter) is read while the root journal is looked for, during initialisation; no function on the update path
+// (reachable from Workspace.UpdateFile) reads it.  A membership test "inside the folder" drops the unsaved edits of an
+// included file that lies outside it (`include ../shared/common.journal`): references and rename edits are computed
+// from the version on disk (C09-m31).
+func ruleFolderNotMembership(c *Ctx) {
+	if c.ranOnce("ruleFolderNotMembership") {
+		return
+	}
+	ci := buildConc(c)
+	wpk := c.P.SSAPkg("internal/workspace")
+	// the folder field: a string field of Workspace stored from a parameter of a function that returns *Workspace
+	folder := -1
+	for _, f := range c.P.ModuleFuncs() {
+		if f.Pkg != wpk || f.Signature.Results().Len() != 1 || !typeHasSuffix(f.Signature.Results().At(0).Type(), "workspace.Workspace") {
+			continue
+		}
+		for _, b := range f.Blocks {
+			for _, ins := range b.Instrs {
+				st, ok := ins.(*ssa.Store)
+				if !ok {
+					continue
+				}
+				fa, ok := st.Addr.(*ssa.FieldAddr)
+				if !ok || !typeHasSuffix(fa.X.Type(), "workspace.Workspace") {
+					continue
+				}
+				if p, ok := stripConv(st.Val).(*ssa.Parameter); ok && types.TypeString(p.Type(), nil) == "string" {
+					folder = fa.Field
+				}
+			}
+		}
+	}
+	var upd *ssa.Function
+	for _, f := range c.P.ModuleFuncs() {
+		if f.Pkg == wpk && f.Name() == "UpdateFile" && f.Signature.Recv() != nil && typeHasSuffix(f.Signature.Recv().Type(), "workspace.Workspace") {
+			upd = f
+		}
+	}
+	if folder < 0 || upd == nil {
+		c.undecided("C12-FOLDER", "workspace", "folder field and update entry point", token.NoPos, "the workspace's folder field or Workspace.UpdateFile was not found")
+		return
+	}
+	n := 0
+	for f := range Reach(ci.g, []*ssa.Function{upd}, false) {
+		if f.Blocks == nil || !inModule(f) {
+			continue
+		}
+		for _, b := range f.Blocks {
+			for _, ins := range b.Instrs {
+				fa, ok := ins.(*ssa.FieldAddr)
+				if !ok || fa.Field != folder || !typeHasSuffix(fa.X.Type(), "workspace.Workspace") {
+					continue
+				}
+				n++
+				c.finding("C12-FOLDER", funcName(f), "the workspace folder is read on the update path", fa.Pos(),
+					"a function reachable from Workspace.UpdateFile reads the workspace folder: whether an update is applied must depend on the include tree only - a file that the root journal includes from outside the folder is a member like any other, and dropping its updates leaves the tree at the version on disk")
+			}
+		}
+	}
+	if n == 0 {
+		c.ok("C12-FOLDER", "workspace", "the workspace folder is not read on the update path", token.NoPos, "membership is decided by the include tree")
+	}
+}
